@@ -153,7 +153,20 @@ def run_property(pid, tier, seed, args):
         if build is not None and getattr(P, "BOUNDED", None) and not args.no_bounded and not args.only:
             from . import rt
             for b in P.BOUNDED:
-                res = rt.run_bounded(build, pid, b, tier, seed)
+                if b.get("asan") is True or b.get("asan") == tier:
+                    # this stand-in runs on an AddressSanitizer build of the working tree: silent out-of-bounds
+                    # accesses in the C library abort the (forked) child and are seen as a violation
+                    ab = rt.Build(asan=True)
+                    try:
+                        ab.make()
+                        res = rt.run_bounded(ab, pid, b, tier, seed)
+                        res["build"] = "AddressSanitizer (gcc -fsanitize=address), runtime preloaded"
+                    except rt.BuildError as e:
+                        res = {"name": b["name"], "label": "bounded", "error": "ASan build failed: %s" % e}
+                    finally:
+                        ab.cleanup()
+                else:
+                    res = rt.run_bounded(build, pid, b, tier, seed)
                 bounded_out.append(res)
                 if res.get("error"):
                     rep.failures.append("bounded stand-in %s failed to run: %s" % (b["name"], res["error"][-1500:]))
@@ -261,6 +274,10 @@ def do_replay(P, rep, path):
         build.make()
         if doc.get("bounded_standin"):
             b = [x for x in P.BOUNDED if x["name"] == doc["bounded_standin"]][0]
+            if b.get("asan"):
+                build.cleanup()
+                build = rt.Build(asan=True)
+                build.make()
             res = rt.run_bounded(build, rep.pid, b, "quick", rep.seed, replay=doc)
             bad = bool(res.get("violations"))
         else:
